@@ -315,15 +315,19 @@ def threshold_at_metric(ctx, chk):
             ev.stubs[Q] = stub
             rate_calls = []
 
+            base = ALIASES.get(name, name)
+
             def st_rate(ev_, fi, bound):
                 rate_calls.append(dict(bound))
-                return App("RATE", (bound.get("threshold", Const("?")),))
-            ev.stubs[SCORES + "." + name] = st_rate
+                arg = [v for k, v in bound.items() if k != "self"]
+                return App("RATE", (arg[0] if arg else Const("?"),))
+            # the six base rates are stubbed: an alias (hand-written or generated) reaches its target through them
+            ev.stubs[SCORES + "." + base] = st_rate
             try:
                 outs = ctx.explore(lambda: ev.call(ctx.method(ctx.scores_obj("pos", "pos"), "threshold_at_metric"), [target, Const(name)], {"points": pts}), chk)
             finally:
                 ev.stubs.pop(Q, None)
-                ev.stubs.pop(SCORES + "." + name, None)
+                ev.stubs.pop(SCORES + "." + base, None)
             inst = "named:%s:points=%s" % (name, mode)
             if not returns(outs) or not cap:
                 chk.unknown("R17.5", "threshold_at_metric(%s): %d return paths, %d inversions" % (inst, len(returns(outs)), len(cap)))
